@@ -42,7 +42,7 @@ static int g_silk_calls, g_celt_calls, g_silk_nbytes0, g_pad_calls, g_pad_newlen
 static void havoc_enc(ec_enc *e)
 {  /* a coding layer used the range coder: any state satisfying the representation invariant, same buffer */
    ec_enc n; n.buf = e->buf; n.storage = e->storage; n.end_offs = e->end_offs; n.end_window = e->end_window; n.nend_bits = e->nend_bits;
-   __CPROVER_assume(RI_ENC(&n) && n.offs >= e->offs && n.nbits_total >= e->nbits_total && n.ext < (1U << 20) && n.nbits_total < (1 << 24)); *e = n; }
+   __CPROVER_assume(RI_ENC(&n) && n.offs >= e->offs && n.nbits_total >= e->nbits_total && n.ext <= VERIF_MAXBYTES + 1 && n.nbits_total < (1 << 24)); *e = n; }      /* ext counts buffered 0xFF bytes: at most the bytes coded so far */
 
 int celt_encoder_ctl(CELTEncoder *OPUS_RESTRICT st, int request, ...)
 {
@@ -99,14 +99,14 @@ void *verif_keep[] = { (void *)verif_hp_cutoff, (void *)verif_dc_reject, (void *
 #define VERIF_MAXBYTES 10
 #endif
 /* the encoder block: OpusEncoder followed by the sub-states; the only SILK field this function reads sits at offset 8 */
-typedef struct { OpusEncoder e; char silk[64]; char celt[64]; } enc_block;
+typedef struct { OpusEncoder e; silk_encoder silk; char celt[64]; } enc_block;
 void h_frame_coder(void)
 {
    enc_block blk; OpusEncoder *st = &blk.e, old; static opus_res pcm[VERIF_FRAME * (VERIF_FS / 400) * VERIF_CH]; unsigned char *data; AnalysisInfo info;
    int frame_size = nondet_int(), max_data_bytes = nondet_int(), float_api = nondet_int() & 1, first_frame = nondet_int() & 1, is_silence = nondet_int() & 1;
    int redundancy = nondet_int() & 1, celt_to_silk = nondet_int() & 1, prefill = nondet_int() & 1, to_celt = nondet_int() & 1, f_q1, c0, evaluated; opus_int32 equiv_rate = nondet_int(), ret;
    __CPROVER_assume(st->Fs == VERIF_FS && settings_ok(st) && stream_ok(st));
-   __CPROVER_assume(st->silk_enc_offset == (int)((char *)blk.silk - (char *)&blk) && st->celt_enc_offset == (int)((char *)blk.celt - (char *)&blk));
+   __CPROVER_assume(st->silk_enc_offset == (int)((char *)&blk.silk - (char *)&blk) && st->celt_enc_offset == (int)((char *)blk.celt - (char *)&blk));
    __CPROVER_assume(st->channels == VERIF_CH && frame_size == VERIF_FRAME * (VERIF_FS / 400) && max_data_bytes == VERIF_MAXBYTES);     /* concrete shape per group */
    __CPROVER_assume(FRAME_CODER_PRE(st, frame_size, max_data_bytes));
    __CPROVER_assume(equiv_rate >= 0 && equiv_rate <= 5000000 && st->energy_masking == NULL);
@@ -114,7 +114,7 @@ void h_frame_coder(void)
    __CPROVER_assume(st->hybrid_stereo_width_Q14 >= 0 && st->hybrid_stereo_width_Q14 <= 16384);
    /* smoothed high-pass cut-off frequencies on a log scale (Q15 of log2(Hz) << 8 domain): both lie in [0, 2^24); the update is a convex combination */
    __CPROVER_assume(st->variable_HP_smth2_Q15 >= 0 && st->variable_HP_smth2_Q15 < (1 << 24));
-   __CPROVER_assume(((silk_encoder *)(void *)blk.silk)->state_Fxx[0].sCmn.variable_HP_smth1_Q15 >= 0 && ((silk_encoder *)(void *)blk.silk)->state_Fxx[0].sCmn.variable_HP_smth1_Q15 < (1 << 24));
+   __CPROVER_assume(blk.silk.state_Fxx[0].sCmn.variable_HP_smth1_Q15 >= 0 && blk.silk.state_Fxx[0].sCmn.variable_HP_smth1_Q15 < (1 << 24));
    __CPROVER_assume(info.valid == 0 || info.valid == 1);
    /* redundancy / prefill flags as opus_encode_native derives them (only with a previous frame of another layer) */
    __CPROVER_assume(!prefill || st->mode != MODE_CELT_ONLY);
